@@ -11,6 +11,7 @@ import (
 	"os/exec"
 	"strings"
 	"sync"
+	"time"
 
 	"github.com/mandykoh/prism"
 	"github.com/mandykoh/prism/adobergb"
@@ -438,6 +439,9 @@ func runTrialChild(args []string) bool {
 	fs := flag.NewFlagSet("trial", flag.ExitOnError)
 	tf := fs.String("tape", "", "")
 	fs.Parse(args)
+	// an orphan (its worker was killed by the orchestrator's watchdog while this
+	// process was stuck) must not outlive the check by more than a few minutes
+	time.AfterFunc(6*time.Minute, func() { os.Exit(3) })
 	b, err := os.ReadFile(*tf)
 	if err != nil {
 		fmt.Println("HARNESS-ERROR:", err)
